@@ -43,9 +43,13 @@ func c18Scenarios() []cParams {
 	}
 	variants := []string{"accept:valid", "accept:wrongkey", "accept:otherhash", "accept:othersigner", "accept:rootsigner", "accept:alteredcounts", "accept:alteredutxo", "accept:alteredpush", "accept:otherhashsig", "accept:replay"}
 	ev := append([]string{"call:gettx:01", "call:subscribe:s", "ready:1", "note:tx", "drop", "tick:2100", "tick:100", "ans:0:proper"}, variants...)
+	// requests whose write fails on a half-open connection and that are carried over to the next connection
+	evW := []string{"wfail", "call:subscribe:s", "call:gettx:01", "drop", "tick:2100", "tick:100", "tick:10100", "ans:0:proper"}
 	return []cParams{
 		{Prop: "C18", Cfg: manual(client.ConnectionTypeFull), Events: ev},
 		{Prop: "C18", Cfg: manual(client.ConnectionTypeControl), Events: ev},
+		{Prop: "C18", Cfg: cBase(client.ConnectionTypeFull), Events: evW, ExtraDepth: 1},
+		{Prop: "C18", Cfg: cBase(client.ConnectionTypeControl), Events: evW, ExtraDepth: 1},
 	}
 }
 
